@@ -549,6 +549,23 @@ def spec_monitor(ctx, mode, sig_prefix, what):
         if r == "ok":
             nok += 1
         if r == "VIOLATION":
+            if lr["suite"] in TIMING_SUITES and nviol < 4:
+                # real goroutines and millisecond timers under machine load: the rejection must reproduce when the session is
+                # re-run alone (either of two re-runs); what the schedule-dependent defects do is the monitors' business
+                again = False
+                for _ in range(2):
+                    impl2, _, _, _ = run_pair(lr["suite"], ops[start:i + 1])
+                    l2 = [f"{o2} | {canon_default(impl2[k]) if k < len(impl2) else 'DEAD'}" for k, o2 in enumerate(ops[start:i + 1])]
+                    try:
+                        _, out2 = sh([DRIVER, mode], inp="\n".join(l2) + "\n", timeout=600)
+                    except subprocess.TimeoutExpired:
+                        out2 = ""
+                    if "VIOLATION" in out2.split("\n"):
+                        again = True
+                        break
+                if not again:
+                    ctx.extra.setdefault("spec_monitor_rejections_not_reproduced", []).append(dict(mode=mode, at=lines[i], session_head=ops[start:start + 6]))
+                    continue
             nviol += 1
             if nviol <= 2:
                 ses = lines[start:i + 1]
